@@ -199,9 +199,14 @@ func RanksField() string {
 
 // ---- constructors ---------------------------------------------------------
 
-func Nil() *V          { return &V{K: 'n'} }
-func Bool(b bool) *V   { if b { return &V{K: 't'} }; return &V{K: 'f'} }
-func Int(i int64) *V   { return &V{K: 'i', I: big.NewInt(i)} }
+func Nil() *V { return &V{K: 'n'} }
+func Bool(b bool) *V {
+	if b {
+		return &V{K: 't'}
+	}
+	return &V{K: 'f'}
+}
+func Int(i int64) *V    { return &V{K: 'i', I: big.NewInt(i)} }
 func Big(i *big.Int) *V { return &V{K: 'I', I: new(big.Int).Set(i)} }
 func BigS(s string) *V {
 	z, ok := new(big.Int).SetString(s, 0)
